@@ -492,6 +492,7 @@ def run(ctx: core.Ctx) -> int:
                construct="mahalanobis", msg="mahalanobis does not return the flattened output of one self.transform(X, include_states=True) call")
     score_rule(ctx, cls, mod)
     refuse_only_rule(ctx, cls, mod)
+    data_entry_rule(ctx, cls, mod)
     for name in ("transform", "mahalanobis", "score"):
         fn = core.find_func(cls, name)
         ws = [w for w in effects.writes(fn) if not (w.kind == "attr" and w.target == "self.model_")]
@@ -504,6 +505,102 @@ def run(ctx: core.Ctx) -> int:
     _c15pp.gen_pure(ctx, {"python": "py/formak/python.py", "common": "py/formak/common.py"}, rule="PY-PURE", floor=40)
     return core.finish(ctx, explanation="structural (def-use resolved) rules on the adapter's row consumption and call sequence, E3 normal form of the "
                                         "NIS and score, effect analysis", **META)
+
+
+CONVERTERS = {"array", "asarray", "asanyarray", "ascontiguousarray", "asfarray"}
+RESHAPERS = {"squeeze", "ravel", "flatten", "reshape", "transpose", "atleast_1d", "atleast_2d", "atleast_3d", "expand_dims", "swapaxes", "moveaxis", "T",
+             "resize", "flat", "diagonal", "take", "compress", "unique", "sort", "flip", "fliplr", "flipud", "roll", "rollaxis", "vstack", "hstack", "concatenate",
+             "stack", "column_stack", "row_stack", "tile", "repeat", "trim_zeros", "nan_to_num", "abs", "absolute", "clip", "delete", "append"}
+
+
+def data_entry_rule(ctx, cls, mod):
+    """DATA-ENTRY: the rows transform consumes are the rows it was given.  Every data argument of the adapter's public methods enters through a
+    converter helper (force_to_ndarray); the helper hands back its argument as an array of the same shape and contents: each value it binds or
+    returns is its parameter, np.array / np.asarray / .__array__() of it, or None.  A reshaping or value-changing call there (squeeze, ravel,
+    reshape, atleast_2d, sort, abs, ...) changes what a row is for every caller."""
+    ctx.rule("DATA-ENTRY", "the converter the adapter passes its data through returns its argument as an array of the same shape and contents")
+    convs = set()
+    for name in ("transform", "mahalanobis", "score", "fit"):
+        fn = core.find_func(cls, name)
+        if fn is None:
+            continue
+        params = {a.arg for a in fn.args.args[1:]}
+        for s_ in ast.walk(fn):
+            if isinstance(s_, ast.Assign) and isinstance(s_.value, ast.Call) and isinstance(s_.value.func, ast.Name) and len(s_.value.args) == 1 \
+                    and isinstance(s_.value.args[0], ast.Name) and s_.value.args[0].id in params and core.find_func_imported(ctx, mod, s_.value.func.id)[0] is not None \
+                    and any(isinstance(t, ast.Name) and t.id == s_.value.args[0].id for t in s_.targets):
+                convs.add(s_.value.func.id)
+    n = 0
+    for cn in sorted(convs):
+        fn, cfile = core.find_func_imported(ctx, mod, cn)
+        cfile = cfile or F
+        if len(fn.args.args) != 1:
+            continue
+        P = fn.args.args[0].arg
+        ldefs, busy = {}, set()
+        for a_ in core.own_walk(fn):
+            if isinstance(a_, ast.Assign) and len(a_.targets) == 1 and isinstance(a_.targets[0], ast.Name) and a_.targets[0].id != P:
+                ldefs.setdefault(a_.targets[0].id, []).append(a_.value)
+
+        def classify(e):
+            """'same' | 'reshaped:<what>' | 'unknown'"""
+            if isinstance(e, ast.Constant) and e.value is None:
+                return "same"
+            if isinstance(e, ast.Name):
+                if e.id == P:
+                    return "same"
+                if e.id in ldefs and e.id not in busy:
+                    busy.add(e.id)
+                    cs = [classify(v) for v in ldefs[e.id]]
+                    busy.discard(e.id)
+                    return next((c_ for c_ in cs if c_ != "same"), "same")
+                return "unknown"
+            if isinstance(e, ast.IfExp):
+                a, b = classify(e.body), classify(e.orelse)
+                return a if a != "same" else b
+            if isinstance(e, ast.Call):
+                f = e.func
+                if isinstance(f, ast.Attribute) and isinstance(f.value, ast.Name) and f.value.id in ("np", "numpy"):
+                    if f.attr in CONVERTERS and e.args and not any(k.arg in ("ndmin", "shape", "order") for k in e.keywords):
+                        return classify(e.args[0])
+                    if f.attr in RESHAPERS:
+                        return "reshaped:np." + f.attr
+                    return "unknown"
+                if isinstance(f, ast.Attribute) and f.attr in ("__array__", "copy", "to_numpy", "astype", "view"):
+                    return classify(f.value)
+                if isinstance(f, ast.Attribute) and f.attr in RESHAPERS and classify(f.value) != "unknown":
+                    return "reshaped:." + f.attr
+                return "unknown"
+            if isinstance(e, ast.Attribute) and e.attr in RESHAPERS and classify(e.value) != "unknown":
+                return "reshaped:." + e.attr
+            if isinstance(e, ast.Attribute) and e.attr in ("values", "data") and classify(e.value) == "same":
+                return "same"
+            if isinstance(e, ast.Subscript) and classify(e.value) != "unknown":
+                return "reshaped:[" + ast.unparse(e.slice)[:20] + "]"
+            if isinstance(e, (ast.BinOp, ast.UnaryOp)):
+                return "reshaped:arithmetic"
+            return "unknown"
+        for s_ in core.own_walk(fn):
+            vals = []
+            if isinstance(s_, ast.Assign) and any(isinstance(t, ast.Name) and t.id == P for t in s_.targets):
+                vals.append(("binds", s_.value))
+            elif isinstance(s_, ast.AugAssign) and isinstance(s_.target, ast.Name) and s_.target.id == P:
+                vals.append(("binds", ast.BinOp(left=s_.target, op=s_.op, right=s_.value)))
+            elif isinstance(s_, ast.Return) and s_.value is not None:
+                vals.append(("returns", s_.value))
+            elif isinstance(s_, ast.Assign) and not all(isinstance(t, ast.Name) for t in s_.targets):
+                vals.append(("stores", ast.Name(id="?", ctx=ast.Load())))
+            for what, e in vals:
+                c = classify(e)
+                n += 1
+                if c == "unknown":
+                    ctx.error(f"DATA-ENTRY: {cn} {what} `{ast.unparse(e)[:60]}` (line {s_.lineno}): not a recognised conversion of `{P}`")
+                    continue
+                ctx.oblige("DATA-ENTRY", f"{cfile}:{cn}", f"{what} `{ast.unparse(e)[:50]}`: {c}", c == "same", file=cfile, func=cn, construct=f"{what}:{c}", line=s_.lineno,
+                           msg=f"{cn} {what} `{ast.unparse(e)[:60]}` ({c.split(':', 1)[-1]}): the data matrix the adapter's methods consume no longer has the rows "
+                               "and columns the caller passed (a single row, or a column of weights, changes meaning)")
+    ctx.floor("DATA-ENTRY", len(convs), 1, "converter helpers the adapter's data arguments pass through")
+    ctx.floor("DATA-ENTRY", n, 1, "values bound / returned by the converter")
 
 
 def default_return_rule(ctx, fn_norm, q, rule):
